@@ -200,3 +200,45 @@ func VerifNewPolicy[K comparable, V any](rand func() uint32) *VerifPolicy[K, V] 
 }
 func (v *VerifPolicy[K, V]) Sketch() *VerifSketch[K]        { return &VerifSketch[K]{s: v.p.sketch} }
 func (v *VerifPolicy[K, V]) Admit(candidate, victim K) bool { return v.p.admit(candidate, victim) }
+
+// --- admission at cache level (C18) ---
+
+// VerifPinRand makes the random admission of warm candidates never fire, so that admission is a
+// function of the frequency estimates alone.
+func VerifPinRand[K comparable, V any](cc *Cache[K, V]) {
+	if cc.cache.withEviction {
+		cc.cache.evictionPolicy.rand = func() uint32 { return 1 }
+	}
+}
+
+// VerifQueues returns, for every node linked in the eviction policy, the queue it is in
+// (0 window, 1 probation, 2 protected).
+func VerifQueues[K comparable, V any](cc *Cache[K, V]) map[K]int {
+	out := map[K]int{}
+	c := cc.cache
+	if !c.withEviction {
+		return out
+	}
+	p := c.evictionPolicy
+	for n := range p.window.All() {
+		out[n.Key()] = 0
+	}
+	for n := range p.probation.All() {
+		out[n.Key()] = 1
+	}
+	for n := range p.protected.All() {
+		out[n.Key()] = 2
+	}
+	return out
+}
+
+// VerifFrequency returns the sketch estimate of key (and whether tracking is enabled, and the
+// sketch's additions counter, which drops when an aging step ran).
+func VerifFrequency[K comparable, V any](cc *Cache[K, V], key K) (freq uint64, enabled bool, size uint64) {
+	c := cc.cache
+	if !c.withEviction {
+		return 0, false, 0
+	}
+	s := c.evictionPolicy.sketch
+	return s.frequency(key), !s.isNotInitialized(), s.size
+}
